@@ -64,7 +64,7 @@ Definition pair_ok_core (ty : gotype) (f : fid) (e : wflat) (r : rflat) : bool :
    a string written through JSONWriteProp goes through a marshaller the model knows *)
 Definition guard_evaluable (g : wguard) : bool :=
   match g with
-  | GOther src => bytes_eqb src (B "len(a.PublicKey.PublicKeyPem)+len(a.PublicKey.ID) > 0")
+  | GOther src => bytes_eqb src (pubkey_guard_src)
   | _ => true
   end.
 Definition known_string_vias : list bytes :=
